@@ -26,6 +26,11 @@ const (
 	infoTypePACDeviceClaimsInfo    uint32 = 15
 )
 
+const (
+	pacTypeHeaderSize = 8  // cBuffers and Version
+	pacInfoBufferSize = 16 // ulType, cbBufferSize and Offset
+)
+
 // PACType implements: https://msdn.microsoft.com/en-us/library/cc237950.aspx
 type PACType struct {
 	CBuffers           uint32
@@ -66,6 +71,11 @@ func (pac *PACType) Unmarshal(b []byte) (err error) {
 	pac.Version, err = r.Uint32()
 	if err != nil {
 		return
+	}
+	// Each PAC_INFO_BUFFER entry takes 16 octets behind the 8 octet header: a count that the data cannot
+	// hold is invalid, and must not size an allocation (0xFFFFFFFF entries would be 64 GiB).
+	if uint64(pac.CBuffers)*pacInfoBufferSize > uint64(len(b))-pacTypeHeaderSize {
+		return fmt.Errorf("PAC declares %d info buffers but holds only %d octets", pac.CBuffers, len(b))
 	}
 	buf := make([]InfoBuffer, pac.CBuffers, pac.CBuffers)
 	for i := range buf {
